@@ -9,6 +9,7 @@ package elasticquota
 
 import (
 	"context"
+	"flag"
 	"io"
 	"testing"
 
@@ -38,6 +39,10 @@ func c01Quiet() {
 	_ = l.Set("0")
 	klog.LogToStderr(false)
 	klog.SetOutput(io.Discard)
+	// errors would still be copied to stderr (the manager logs one for every refused double add / remove)
+	fs := flag.NewFlagSet("c01-klog", flag.ContinueOnError)
+	klog.InitFlags(fs)
+	_ = fs.Set("stderrthreshold", "FATAL")
 }
 
 type c01PluginDriver struct {
